@@ -11,7 +11,10 @@ NOT_SHOWN = {
          "Circle, Cylinder, CylinderSegment: need Bulirsch cel/el3 (Legendre elliptic integral) theory, absent from Mathlib v4.33",
          "all of the above are checked against numerical quadrature of the defining integral by the oracle (rel. 2e-6 outside, 2e-4 inside)"],
  "C13": ["Cuboid = mesh = tetrahedra; Cylinder = sum of segments; Polyline -> Circle: equalities between different closed forms, oracle only "
-         "(proved: Tetrahedron = wrapH of its four Triangle sheets, with an inside test independent of the vertex order)",
+         "(proved: Tetrahedron = wrapH of its four Triangle sheets, with an inside test independent of the vertex order). "
+         "(audit 2) more precisely: 'tetrahedra = mesh = sheets' IS proved for tetrahedra glued along full faces (tetra_list_glue / tetra_pair_is_mesh: sum of the "
+         "Tetrahedra = wrapH of the boundary's sheet sum, H everywhere) UNDER the hypothesis that the mesh's inside test is the disjunction of the tetrahedra's tests; what is "
+         "oracle only is the Cuboid CLOSED FORM against any of the three sheet-based representations",
          "partition additivity, PROVED for the Cuboid cut by axis-parallel planes into Cuboids of the same polarization (Lemmas/CuboidSplit.lean, through the C01 surface-charge integral: "
          "parallel faces additive, internal faces cancel, inside the whole <=> inside exactly one part): one cut per axis for the kernel (cuboid_split_x/y/z: every observer off the seven "
          "planes, inside or outside) and for all four fields B/H/J/M of the wrapper bhjmCuboid outside the 1e-15 surface shells of the three bodies (cuboid_split_wrapper_x/y/z); any list of "
@@ -52,11 +55,25 @@ NOT_SHOWN = {
          "whole = sum of the two hulls, inside and outside, lengths 1e-6 ... 1e3)",
          "full_ring_is_cylinder_difference / partial_ring_is_segment unfold the `if` of BHJM_cylinder_segment_internal: the object-oriented wrapper BYPASSES the segment formulas at "
          "360 degrees; that the segment closed form at 360 degrees equals the Cylinder closed form is not shown; invariance of a CylinderSegment under phi -> phi + 360 for both angles: "
-         "only the helper arctan_k_tan_2 is proved periodic",
+         "(audit 2: corrected, this sentence was stale) proved for ranges with 0 < phi2 and (360 < phi2 or -360 <= phi1) by cylseg_angles_plus_360_partial - "
+         "an arithmetic fact about the prologue's `turns` (both ranges normalise to the same row), see the last entry; otherwise only the helper arctan_k_tan_2 is proved periodic",
          "polyline_split_additive / polyline_reverse_negates are about the unmasked one-segment kernel; for det = 0 the inside test answers 'outside' everywhere (repo fix 657dea6)",
                   "CylinderSegment written one turn further: proved where the prologue maps both ranges to the same representative (`cylseg_angles_plus_360_partial`); for ranges ending at p2 <= 0 it keeps "
          "representatives 2pi apart and equality would need the quasi-periodicity of the incomplete elliptic integrals in their amplitude (shown: a full turn acts ONLY on the amplitudes, "
-         "`cylseg_full_turn_acts_on_amplitudes`, `cylseg_arctan_continuation_explicit`); a proper segment plus its complement = full ring: closed forms, oracle only"],
+         "`cylseg_full_turn_acts_on_amplitudes`, `cylseg_arctan_continuation_explicit`); a proper segment plus its complement = full ring: closed forms, oracle only",
+         "(audit 2) literal reading of the new theorems. TIE: bhjmTrimesh / bhjmTrimeshRow (trimesh_is_wrapH_of_sheets, trimesh_glue_additive, tetra_pair_is_mesh, "
+         "from_mesh_preserves_field, to_triangle_collection_preserves_field) are NOT run against the real BHJM_magnet_trimesh by THIS check: the `trimesh` / `trimesh batch` streams "
+         "are wired in checks/C02.py, C06.py, C16.py only (this check runs kern, mesh-unique, cylseg, sym); bhjmCuboid, bhjmTriangle (hence triangleB, solidAngle), bhjmTetra, "
+         "bhjmCylSeg are run here. trimesh_glue_additive for J and M restates its hypotheses hin / hdisj (content only in B and H through trimesh_glue_sheets); `inside` and `meshId` are "
+         "free parameters in all mesh theorems. Cuboid partitions: real numbers (log of a negative = log|.|: positivity of numpy's log arguments is C15), the kernel versions exclude "
+         "the whole PLANES of the faces and cuts, i.e. also observers outside the body in the prolongation of a face, which the property's 'off the cut planes and surfaces' includes "
+         "(measure zero; the wrapper versions exclude the 1e-15 shells of those planes); parts are unrotated, centred by the observer shift, side lengths > 0. "
+         "from_mesh / from_triangles: the theorems are about the two np.unique glue lines over the reals (RowLaws is proved for the reals only, not for RowCmp.float: for doubles the "
+         "driver reports the round-trip verdict per soup and the stream compares it); with the DEFAULT reorient_faces=True the constructor may flip inward triangles, then .mesh != soup "
+         "and 'from_mesh(soup).mesh = soup' does not hold - proved/streamed for reorient_faces='skip'. to_TriangleCollection: no model function, no driver command; the theorem's "
+         "left-hand side is a transcription of its first two lines. Solid angle: NO theorem says that triangle_Bfield's solid_angle is the geometric solid angle of the triangle; "
+         "the theorems are additivity statements about the code's 2*atan2(N, D) (atan2 = Complex.arg, no branch assumed) and about its clamp. tetra_edge_split_additive / "
+         "triangle_split_additive: one cut through a vertex and a point of the opposite edge, observer off the planes of the cut faces and outside the clamp band"],
  "C14": ["flux / circulation laws for general surfaces and loops and for the elliptic-integral classes: quadrature oracle only",
          "Mathlib has the divergence theorem for boxes only and no Stokes theorem for general loops"],
 }["C13"]
@@ -75,6 +92,13 @@ def run(ctx, model_ok):
         su = mesh_family.run_unique(ctx, ctx.scale(150, 6000))
         su.pop("samples", None)
         ctx.cov["correspondence_mesh_unique"] = su
+    if ctx.driver_ok:
+        # (audit2) the mesh theorems of Props/C13 (trimesh_is_wrapH_of_sheets, trimesh_glue_additive, tetra_pair_is_mesh, from_mesh_preserves_field,
+        # to_triangle_collection_preserves_field) are about Model/TrimeshSum.bhjmTrimesh / bhjmTrimeshRow: tie that model to BHJM_magnet_trimesh on THIS
+        # check's run too (before, only C02 / C06 / C16 ran a trimesh stream)
+        from corr import trimesh_family
+        ctx.cov["correspondence_trimesh"] = trimesh_family.run_stream(ctx, ctx.scale(60, 2000))
+        ctx.cov["correspondence_trimesh_batch"] = trimesh_family.run_batch_stream(ctx, ctx.scale(40, 1200))
     # the CylinderSegment theorems are about Model/CylSeg*.lean: is the frozen translation still what the source says, and does the port agree with the real code?
     from checks import _cylseg
     _cylseg.run(ctx, ctx.scale(300, 10000))
